@@ -55,13 +55,25 @@ def expected_volume(code, size, stacks, np):
     return out
 
 
-def write_slices(dirpath, stack, fmt, np):
+NAME_POOL = ["s1", "s2", "s3", "s9", "s10", "s11", "s20", "s100", "s1_2", "s01", "S5", "a10", "a9", "s"]
+
+
+def slice_names(rng, n, fmt, scheme):
+    """File names for n slices.  The documented stack order is the LEXICOGRAPHIC order of the names
+    ("slices from the input directory are sorted in lexicographic order"): slice k of the stack is the
+    k-th name in that order.  'unpadded' picks names on which numeric and lexicographic order differ."""
+    if scheme == "padded" or n > len(NAME_POOL):
+        return [f"s{k:04d}.{fmt}" for k in range(n)]
+    return sorted(f"{b}.{fmt}" for b in rng.sample(NAME_POOL, n))
+
+
+def write_slices(dirpath, stack, fmt, np, names=None):
     """stack [file, row, col, ch] -> image files with sortable names."""
     from PIL import Image
     os.makedirs(dirpath, exist_ok=True)
     for k in range(stack.shape[0]):
         img = stack[k]
-        name = os.path.join(dirpath, f"s{k:04d}.{fmt}")
+        name = os.path.join(dirpath, names[k] if names else f"s{k:04d}.{fmt}")
         if img.shape[2] == 1 and img.dtype not in (np.uint8, np.uint16):
             import tifffile
             tifffile.imwrite(name, np.ascontiguousarray(img[:, :, 0]))
@@ -254,7 +266,7 @@ def run(R):
                 d = chunk[za] = rng.randrange(2, 6)
                 size[za] = d * rng.choice([1, 2]) + rng.randrange(1, d)
             layout = rng.choice(["grey8", "grey8", "grey16", "rgb", "two-dirs", "three-dirs", "grey8-tif",
-                                 "grey16-tif"])
+                                 "grey16-tif", "rgb+grey", "grey+rgb+grey", "rgb+rgb"])
             storage = rng.choice(["deep-gz", "deep-gz", "flat", "plain", "flat-plain"])
             jobs.append(dict(code=code, size=size, chunk=chunk, rel=rel, layout=layout, storage=storage,
                              sharded=False, case_code=code))
@@ -291,7 +303,9 @@ def run(R):
         lay = j["layout"]
         pixel = j.get("pixel")
         ndirs = 3 if lay == "three-dirs" else 2 if lay in ("two-dirs", "pixel-two-dirs") else 1
-        kch = 3 if lay == "rgb" else 1
+        # channels per directory: RGB directories may come before, between or after grey ones
+        kchs = {"rgb": [3], "rgb+grey": [3, 1], "grey+rgb+grey": [1, 3, 1], "rgb+rgb": [3, 3]}.get(lay, [1] * ndirs)
+        ndirs = len(kchs)
         if pixel:
             dt = pixel[0]
             stacks = [np.array(pixel_values(rng, dt, pixel[2], n * h * w, np), dtype=dt).reshape(n, h, w, 1)
@@ -301,7 +315,7 @@ def run(R):
             dt = "uint16" if "16" in lay else "uint8"
             hi = 65536 if dt == "uint16" else 256
             stacks = [np.array([[[[rng.randrange(hi) for _ in range(kch)] for _ in range(w)] for _ in range(h)]
-                                for _ in range(n)], dtype=dt).reshape(n, h, w, kch) for _ in range(ndirs)]
+                                for _ in range(n)], dtype=dt).reshape(n, h, w, kch) for kch in kchs]
             fmt = "tif" if lay.endswith("tif") else "png"
         # directory names in random order: the channel order is the ORDER GIVEN on the command line,
         # which must not coincide with the lexicographic order of the paths
@@ -309,11 +323,13 @@ def run(R):
         dirs = []
         for di, st in enumerate(stacks):
             dpath = os.path.join(R.tmp, f"in{idx}", f"{tags[di]}_{di}")
-            write_slices(dpath, st, fmt, np)
+            scheme = rng.choice(["padded", "padded", "unpadded"])
+            R.count(f"slice-names:{scheme}")
+            write_slices(dpath, st, fmt, np, slice_names(rng, st.shape[0], fmt, scheme))
             dirs.append(dpath)
         if ndirs > 1:
             R.count("dir-order:" + ("lexicographic" if dirs == sorted(dirs) else "not-lexicographic"))
-        nch = ndirs * kch
+        nch = sum(kchs)
         out_dt = dt
         if pixel:
             out_dt = pixel[1]
@@ -333,15 +349,15 @@ def run(R):
             opts.append("--flat")
         if "plain" in st:
             opts.append("--no-gzip")
-        prepared.append((j, stacks, dirs, dest, nch, dt, out_dt, kch, opts, (w, h, n)))
+        prepared.append((j, stacks, dirs, dest, nch, dt, out_dt, kchs, opts, (w, h, n)))
 
     reqs = []
-    for j, stacks, dirs, dest, nch, dt, out_dt, kch, opts, (w, h, n) in prepared:
+    for j, stacks, dirs, dest, nch, dt, out_dt, kchs, opts, (w, h, n) in prepared:
         reqs.append(("slices_run", [j["code"].encode(), j["size"], j["chunk"], nch,
-                                    [[n, h, w, (kch if kch > 1 else Atom("none"))] for _ in stacks]]))
+                                    [[n, h, w, (kch if kch > 1 else Atom("none"))] for kch in kchs]]))
     replies = R.model.batch(reqs)
 
-    for (j, stacks, dirs, dest, nch, dt, out_dt, kch, opts, (w, h, n)), rep in zip(prepared, replies):
+    for (j, stacks, dirs, dest, nch, dt, out_dt, kchs, opts, (w, h, n)), rep in zip(prepared, replies):
         code, size, chunk = j["code"], j["size"], j["chunk"]
         argv = ["slices-to-precomputed"] + dirs + [dest, "--input-orientation", j["case_code"]] + opts
         if j["sub"]:
@@ -356,13 +372,30 @@ def run(R):
                 last = r.stderr.decode().strip().splitlines()[-1:] or [""]
                 impl = ["Crash", last[0].split(":")[0].split(".")[-1]]
         else:
+            # one job in six goes through the public function with explicit file lists, and converts the
+            # SAME list objects a second time into a second destination (the caller's lists must still
+            # describe the stack in its original order afterwards)
+            api_twice = code in ALL_CODES and j["case_code"] == code and rng.random() < 0.17
+            dest_b = dest + "_b"
+            if api_twice:
+                make_info(dest_b, size, chunk, nch, out_dt, None)
+
             def go():
                 with contextlib.redirect_stdout(io.StringIO()), contextlib.redirect_stderr(io.StringIO()):
                     try:
+                        if api_twice:
+                            from pathlib import Path
+                            lists = [sorted(Path(d).iterdir()) for d in dirs]
+                            o = {"flat": "--flat" in opts, "gzip": "--no-gzip" not in opts}
+                            slices_to_precomputed.slices_to_raw_chunks(lists, dest, code, options=dict(o))
+                            slices_to_precomputed.slices_to_raw_chunks(lists, dest_b, code, options=dict(o))
+                            return 0
                         return slices_to_precomputed.main(list(argv))
                     except SystemExit as exc:
                         return ("exit", exc.code)
             impl = outcome_of(go)
+            if api_twice:
+                R.count("api:same-lists-converted-twice")
             if impl == ["ok", 0]:
                 impl = ["ok", []]
             elif impl[0] == "ok" and impl[1] == ("exit", 2):
@@ -406,6 +439,12 @@ def run(R):
         if not m_wf:
             R.disagree("c15_wf classification (every generated job is well formed)", case, True, m_wf)
         ok = impl == ["ok", []] and present.all() and np.array_equal(vol, expect)
+        if ok and not j["sub"] and api_twice:
+            vol_b, present_b, _cp = read_dataset(dest_b, size, chunk, nch, out_dt, ropts, np)
+            if not (present_b.all() and np.array_equal(vol_b, expect)):
+                R.violation("second conversion of the same file lists (same process) differs from the stack "
+                            "oriented as the code designates", case,
+                            {"voxels_present": int(present_b.sum()), "wrong": int((vol_b != expect).sum())})
         if not ok:
             wrong = int((np.where(pres4, vol, 0) != np.where(pres4, expect, 0)).sum())
             R.violation("converted volume differs from the stack oriented as the code designates, "
